@@ -25,6 +25,16 @@ class TrashedFile(
                        trash operation (instance of Path)
     """
 
+    def at_its_own_path(self):
+        """'a/b/' and 'a/b/.' name the entry 'a/b' itself, not something in
+        it: the same trashed file, with the location it is restored to."""
+        location = self.original_location
+        while len(location) > 1 and (location.endswith('/') or
+                                     location.endswith('/.')):
+            location = location[:-1] if location.endswith('/') \
+                else location[:-2]
+        return self._replace(original_location=location)
+
     def original_location_matches_path(self, path):
         if path == os.path.sep:
             return True
